@@ -67,6 +67,6 @@ META = dict(
     note="Repairs modelled: Muskingum carries inflow+lateral, Lag buffer handling, StorageRouting initial storage (already in /repo); "
          "zero-outflow exits report the balance storage, full-drain exit drains the lateral, convergenceLimit = 0 (fixes/storage_routing_*.diff).",
     technique="Lean 4 proof (induction over the series through scan; list induction for the lag loops; case analysis per solver exit) + "
-              "differential correspondence + property oracles (budget, non-negativity, storage-discharge relation)",
+              "differential correspondence + property oracles (budget, non-negativity, storage-discharge relation) + model regenerated from the Go source on every run by a translator (gen_eq_* theorems tie it to the hand-written model) + inequality clauses re-proved for every monotone rounding (RNum)",
 )
 READY = True
